@@ -840,6 +840,11 @@ func (x *Exec) enterLoop(fr *Frame, li *loopInfo, entry *State, edgeStates []*St
 	ds := entry.clone()
 	for _, phi := range phis {
 		fr.regs[phi] = x.freshValue("d_"+phi.Name(), phi.Type(), ds.guard)
+		if ev := entryVals[phi]; ev != nil && ev.K == KSlice && ev.Off != nil && ev.Off.Op == "int" && ev.Off.Int.Sign() == 0 && fr.regs[phi].K == KSlice {
+			// optimistic: if offset 0 at the loop head gives offset 0 on every back edge (checked
+			// below), the slice keeps offset 0 by induction
+			fr.regs[phi].Off = IntLit(0)
+		}
 		if phi.Comment == "rangeindex" && fr.regs[phi].K == KScalar {
 			x.facts = append(x.facts, Implies(ds.guard, Ge(fr.regs[phi].Term, IntLit(-1))))
 		}
